@@ -91,6 +91,7 @@ func main() {
 	prune := flag.Bool("prune", true, "ask the solver before executing diagnostic (error) blocks and prune the infeasible ones")
 	feasSolver := flag.String("feassolver", "z3-new", "solver used for in-line feasibility checks")
 	concrete := flag.String("concrete", "", "replay vector (JSON): execute the harness concretely with these draws")
+	summarize := flag.String("summarize", "", "regexp of package-level functions replaced by the opaque summary S4 (user hooks)")
 	doInit := flag.Bool("init", false, "execute the harness package's init (needed for level K globals)")
 	labels := flag.String("labels", "", "regexp: only obligations whose label matches are emitted (no-panic is always kept)")
 	flag.Parse()
@@ -178,6 +179,9 @@ func main() {
 			gheap: map[*Obj]Value{}, funcs: map[string]int{}, fnInstrs: map[string]int{}, stubs: map[string]int{},
 			stack: map[ssa.Instruction]int{}, unwind: *unwind, panicC: FalseT, strMax: *strMax, solverName: *feasSolver, prune: *prune,
 			prefix: fmt.Sprintf("h%d_", hi), uf: map[string]*Term{}, splitMax: *splitMax, bounds: map[string]bool{}, optRecs: map[*Obj]*StructV{}}
+		if *summarize != "" {
+			e.summarize = regexp.MustCompile(*summarize)
+		}
 		if *concrete != "" {
 			b, err := os.ReadFile(*concrete)
 			if err != nil {
